@@ -11,9 +11,10 @@ from dateparser.custom_language_detection.language_mapping import map_languages
 from dateparser.date_parser import date_parser
 from dateparser.freshness_date_parser import freshness_date_parser
 from dateparser.languages.loader import LocaleDataLoader
-from dateparser.parser import _parse_absolute, _parse_nospaces
+from dateparser.parser import _check_strict_parsing, _parse_absolute, _parse_nospaces
 from dateparser.timezone_parser import pop_tz_offset_from_string
 from dateparser.utils import (
+    _get_missing_parts,
     apply_timezone_from_settings,
     get_timezone_from_tz_string,
     set_correct_day_from_settings,
@@ -186,6 +187,15 @@ def parse_with_formats(date_string, date_formats, settings):
         except ValueError:
             continue
         else:
+            if settings is not None:
+                # STRICT_PARSING / REQUIRE_PARTS apply to given formats as well:
+                # a format that lacks a demanded part must not have it filled in
+                # from the current date.
+                try:
+                    _check_strict_parsing(_get_missing_parts(date_format), settings)
+                except ValueError:
+                    continue
+
             if not ("%y" in date_format or "%Y" in date_format):
                 # Apply the current year first, so that a missing day or month
                 # is completed in that year (leap years) and not in 1900.
